@@ -275,9 +275,12 @@ class Unit:
         repl = []  # (start, end, text)
         b0 = f['open']
         lps = s.loops_in(f['open'] + 1, f['close'])
-        for k, lines in loops.items():
+        # annotations whose anchor disappeared are dropped (remembered as soft-undecided): the function is still
+        # verified against its contract, so a change that removes the loop AND breaks the postcondition fails
+        for k, lines in list(loops.items()):
             if k >= len(lps):
-                raise ExtractError('%s: fn %s has %d loops, contract refers to loop %d' % (where, name, len(lps), k))
+                self.soft_undecided.append('%s: fn %s has %d loops, contract annotates loop %d' % (where, name, len(lps), k))
+                continue
             ins.append((lps[k]['open'] - b0, 'loop%d' % k, lines))
         for k in range(len(lps)):
             if k not in loops and lps[k]['kind'] in ('for', 'while', 'loop'):
@@ -302,14 +305,16 @@ class Unit:
                     auto_for = True
         for k, lines in loopends.items():
             if k >= len(lps):
-                raise ExtractError('%s: fn %s has %d loops, loopend refers to loop %d' % (where, name, len(lps), k))
+                self.soft_undecided.append('%s: fn %s has %d loops, contract annotates the end of loop %d' % (where, name, len(lps), k))
+                continue
             ins.append((lps[k]['close'] - b0, 'proof', lines))
         cls = s.closures_in(f['open'] + 1, f['close'])
         # R-for: the language's own desugaring of `for PAT in EXPR { B }`, giving Verus a
         # place for the invariant when EXPR is a shim iterator
         for k, lines in forloops.items():
             if k >= len(lps) or lps[k]['kind'] != 'for':
-                raise ExtractError('%s: fn %s: loop %d is not a for loop' % (where, name, k))
+                self.soft_undecided.append('%s: fn %s: contract annotates for-loop %d which is not there' % (where, name, k))
+                continue
             lp = lps[k]
             hdr = s.text[lp['kw'] + 3:lp['open']]
             hm = s.masked[lp['kw'] + 3:lp['open']]
@@ -344,7 +349,8 @@ class Unit:
                 hits = [mm for mm in re.finditer(m.group(1), body)]
                 want = int(m.group(2) or 0)
                 if len(hits) <= want:
-                    raise ExtractError('%s: proof anchor /%s/ not found in fn %s' % (where, m.group(1), name))
+                    self.soft_undecided.append('%s: proof anchor /%s/ not found in fn %s' % (where, m.group(1), name))
+                    continue
                 off = body.rfind('\n', 0, hits[want].start()) + 1
                 ins.append((off, 'proof', lines))
         sig_pending = sig
